@@ -16,6 +16,7 @@ mod registry;
 mod runner;
 mod serde_fmt;
 mod simrng;
+mod stats;
 mod support;
 
 use runner::{Ctx, Tier};
